@@ -35,6 +35,7 @@ Definition verb_of (name : string) (n : nat) : option verb :=
   else if name =? "hardstop" then Some VHardStop
   else if name =? "softstop" then Some VSoftStop
   else if name =? "load" then Some (VLoad n false)
+  else if name =? "loadbig" then Some (VLoad n false)
   else if name =? "loadbad" then Some (VLoad n true)
   else None.
 
@@ -68,6 +69,13 @@ Definition do_event (st : rstate) (e : event) : rstate * list tok :=
   let '(h, os) := Model.step (r_hub st) e in
   (mkR h true (r_clients st) (add_sent (r_sent st) os), obs_of st h os).
 
+(* several events with no observation in between (one batch of answers) *)
+Definition do_events (st : rstate) (es : list event) : rstate * list tok :=
+  if negb (r_started st) then (st, []) else
+  if stopping (r_hub st) then (st, [TS "gone"]) else
+  let '(h, os) := Model.run (r_hub st) es in
+  (mkR h true (r_clients st) (add_sent (r_sent st) os), obs_of st h os).
+
 Definition sent_of (st : rstate) (w : nat) : list rid :=
   match find (fun e => Nat.eqb (fst e) w) (r_sent st) with Some e => snd e | None => [] end.
 
@@ -86,10 +94,12 @@ Definition step (st : rstate) (op : list tok) : rstate * list tok :=
       (* the hub a new main process re-creates from the UpgradeData of an idle one in which
          worker s (if any) was stopped *)
       match args with
-      | [TN w; TN t; TN c; TN sw] =>
+      | TN w :: TN t :: TN c :: TN sw :: rest =>
+        (* [issued]: task ids the previous main process had used up *)
+        let issued := match rest with [TN b] => Z.to_nat b | _ => 0%nat end in
         let h0 := init (Z.to_nat w) (Z.to_N (t * 1000)) in
         let h1 := if Z.ltb sw 0 then h0 else fst (apply_event h0 (EWorkerClosed (Z.to_nat sw))) in
-        let h := handover h1 in
+        let h := handover (burn_ids h1 issued) in
         let st' := mkR h true (Z.to_nat c) (map (fun i => (i, [])) (seq 0 (Z.to_nat w))) in
         (st', TN 1 :: obs_of st' h [])
       | _ => bad end
@@ -109,6 +119,15 @@ Definition step (st : rstate) (op : list tok) : rstate * list tok :=
         | Some r => do_event st (EResp (Z.to_nat w) (Some r) (status_of_code s))
         | None => (st, if r_started st && stopping (r_hub st) then [TS "gone"] else [])
         end
+      | _ => bad end
+    else if name =? "respold" then
+      match args with
+      | [TN w; TN tid; TN s] => do_event st (EResp (Z.to_nat w) (Some (Z.to_nat w, Z.to_nat tid, 0%nat)) (status_of_code s))
+      | _ => bad end
+    else if name =? "respall" then
+      match args with
+      | [TN w; TN s] =>
+        do_events st (map (fun r => EResp (Z.to_nat w) (Some r) (status_of_code s)) (sent_of st (Z.to_nat w)))
       | _ => bad end
     else if name =? "respu" then
       match args with
